@@ -58,7 +58,12 @@ def spin_kind(m):
     if not m.overflow_log:
         # a cycle that only exists under a data condition (a break inside an action-only if takes part in it): the compile-time check
         # cannot see it (open finding); every other cycle without an out-of-space redirect should have been rejected
-        return "conditional-break-cycle" if m.cond_break_log else "no-overflow"
+        if m.cond_break_log:
+            return "conditional-break-cycle"
+        # a mismatch handed on through two or more handlers on one byte (an inner handler that fails itself): the compile-time check follows a
+        # fall-through chain only while every symbol of the first transition stays together, and misses the cycle that exists for one of them
+        # (open finding); cycles without any of these ingredients should have been rejected
+        return "nested-handler-cycle" if len(set(id(x) for x in m.handler_log)) >= 2 else "no-overflow"
     # An out-of-space redirect takes part in the cycle.  Whether the cycle closes through a loop statement's repeat (the open
     # finding: the handler completes and the loop re-enters the append) or not (e.g. a catch block re-entering itself, fixed)
     # is decided on the source by the caller.
